@@ -46,6 +46,9 @@ pub assume_specification<T, F: FnOnce() -> Option<T>>[ Option::<T>::or_else ](o:
 
 pub assume_specification<T>[ core::mem::drop ](x: T);
 
+pub assume_specification<T>[ Option::<T>::or ](a: Option<T>, b: Option<T>) -> (r: Option<T>)
+    ensures r == (if a is Some { a } else { b });
+
 pub mod xml {
     use vstd::prelude::*;
     pub struct SerError { _p: () }
